@@ -21,7 +21,8 @@ import inspect
 from pathlib import Path
 
 ROOT = Path(__file__).resolve().parents[2]
-OUT = ROOT / "lean" / "OPM" / "Gen" / "LockTable.lean"
+from vp import core as _core  # the Lean project this run works in (private copy for scratch trees)
+OUT = _core.LEAN / "OPM" / "Gen" / "LockTable.lean"
 
 
 def _lean_str(s: str) -> str:
